@@ -13,7 +13,7 @@ Lemma run_from_app s p q : run_from s (p ++ q) = run_from (run_from s p) q.
 Proof. unfold run_from. apply fold_left_app. Qed.
 
 Lemma log_step s x : log (do_step s x) = log s ++ step_events s x.
-Proof. destruct x as [c img|img res|c]; cbn; [destruct (inflight s img)| |]; reflexivity. Qed.
+Proof. destruct x as [c img|img res|c|c]; cbn; [destruct (inflight s img)| | |]; reflexivity. Qed.
 
 Lemma set_same {A} (m : N -> A) i v : set m i v i = v.
 Proof. unfold set. now rewrite N.eqb_refl. Qed.
@@ -61,14 +61,14 @@ Lemma last_started_app img l1 l2 :
 Proof. unfold last_started. now rewrite fold_left_app. Qed.
 
 Lemma responses_count_started img l : Forall is_response l -> count_started img l = 0%nat.
-Proof. induction 1 as [|e l He _ IH]; [reflexivity|]. destruct e; cbn in *; [contradiction|exact IH]. Qed.
+Proof. induction 1 as [|e l He _ IH]; [reflexivity|]. destruct e; cbn in *; try contradiction; exact IH. Qed.
 
 Lemma responses_pullnos l : Forall is_response l -> pullnos l = [].
-Proof. induction 1 as [|e l He _ IH]; [reflexivity|]. destruct e; cbn in *; [contradiction|exact IH]. Qed.
+Proof. induction 1 as [|e l He _ IH]; [reflexivity|]. destruct e; cbn in *; try contradiction; exact IH. Qed.
 
 Lemma responses_last_started img l a : Forall is_response l ->
   fold_left (fun acc e => match e with PullStarted i n => if i =? img then Some n else acc | _ => acc end) l a = a.
-Proof. intros H; revert a; induction H as [|e l He _ IH]; intros a; [reflexivity|]. destruct e; cbn in *; [contradiction|apply IH]. Qed.
+Proof. intros H; revert a; induction H as [|e l He _ IH]; intros a; [reflexivity|]. destruct e; cbn in *; try contradiction; apply IH. Qed.
 
 Lemma count_resp_broadcast c img i n res recv : forall k,
   count_resp c img (broadcast i n res k recv) = if i =? img then count_in c recv else 0%nat.
@@ -124,7 +124,9 @@ Proof. constructor; cbn; try discriminate; try tauto; constructor. Qed.
 
 Lemma inv_step s x : Inv s -> Inv (do_step s x).
 Proof.
-  intros [Hlt Hinj Hfresh Hclt Hnd Hplt Hpnd]. destruct x as [c img|img res|c].
+  intros [Hlt Hinj Hfresh Hclt Hnd Hplt Hpnd]. destruct x as [c img|img res|c|c].
+  3: { (* Fail: only a Rejected event *)
+       constructor; cbn; rewrite ?copies_app, ?pullnos_app; cbn; rewrite ?app_nil_r; eauto. }
   3: { (* Cancel: nothing changes *)
        constructor; cbn; rewrite ?app_nil_r; eauto. }
   - (* Req *)
@@ -201,6 +203,9 @@ Lemma waiting_snoc_done img p i res :
   waiting img (rev (p ++ [Done i res])) = if i =? img then [] else waiting img (rev p).
 Proof. now rewrite rev_app_distr. Qed.
 
+Lemma waiting_snoc_fail img p c : waiting img (rev (p ++ [Fail c])) = waiting img (rev p).
+Proof. now rewrite rev_app_distr. Qed.
+
 Lemma waiting_snoc_cancel img p c : waiting img (rev (p ++ [Cancel c])) = waiting img (rev p).
 Proof. now rewrite rev_app_distr. Qed.
 
@@ -215,7 +220,10 @@ Proof.
   induction steps as [|x p IH] using rev_ind; intros img; unfold entry_matches.
   - reflexivity.
   - rewrite run_snoc. specialize (IH img) as IHimg. unfold entry_matches in IHimg.
-    destruct x as [c i|i res|c].
+    destruct x as [c i|i res|c|c].
+    3: { rewrite waiting_snoc_fail. cbn [do_step inflight log step_events].
+         destruct (inflight (run p) img); [|assumption].
+         rewrite last_started_app. exact IHimg. }
     3: { rewrite waiting_snoc_cancel. cbn. rewrite app_nil_r. exact IHimg. }
     + rewrite waiting_snoc_req. cbn [do_step].
       destruct (inflight (run p) i) as [e|] eqn:E; cbn [inflight log step_events]; rewrite E.
@@ -254,7 +262,7 @@ Proof. unfold wf. rewrite rev_app_distr. destruct x; reflexivity. Qed.
 Lemma wf_prefix p q : wf (p ++ q) = true -> wf p = true.
 Proof.
   induction q as [|x q IH] using rev_ind; [now rewrite app_nil_r|].
-  rewrite app_assoc, wf_snoc. destruct x; [assumption| |assumption]. rewrite andb_true_iff. tauto.
+  rewrite app_assoc, wf_snoc. destruct x; [assumption| |assumption|assumption]. rewrite andb_true_iff. tauto.
 Qed.
 
 (** * (a) at most one pull per image in flight *)
@@ -265,7 +273,8 @@ Lemma started_minus_done steps : wf steps = true -> forall img,
 Proof.
   induction steps as [|x p IH] using rev_ind; intros Hwf img; [reflexivity|].
   rewrite wf_snoc in Hwf. rewrite run_snoc, log_step, count_started_app, count_done_app.
-  destruct x as [c i|i res|c].
+  destruct x as [c i|i res|c|c].
+  3: { specialize (IH Hwf img). cbn. lia. }
   3: { specialize (IH Hwf img). cbn. lia. }
   - specialize (IH Hwf img). cbn [do_step step_events].
     destruct (inflight (run p) i) as [e|] eqn:E; cbn [inflight]; rewrite ?E; cbn [count_done filter length count_started].
@@ -324,7 +333,8 @@ Proof.
   induction steps as [|x p IH] using rev_ind; [reflexivity|].
   rewrite run_snoc, log_step, count_req_app, count_resp_app.
   pose proof (inflight_waiting p) as Hm.
-  destruct x as [d i|i res|d].
+  destruct x as [d i|i res|d|d].
+  3: { rewrite waiting_snoc_fail. cbn. lia. }
   3: { rewrite waiting_snoc_cancel. cbn. lia. }
   - rewrite waiting_snoc_req. cbn [step_events].
     assert (Hz : count_resp c img (match inflight (run p) i with None => [PullStarted i (next (run p))] | Some _ => [] end) = 0%nat)
@@ -370,7 +380,8 @@ Proof.
   - assert (Hq' : forall r, ~ In (Done img r) q) by (intros r H; apply (Hq r), in_or_app; now left).
     specialize (IH Hq'). replace (p ++ Req c img :: q ++ [x]) with ((p ++ Req c img :: q) ++ [x])
       by (rewrite <- app_assoc; reflexivity).
-    destruct x as [d i|i r|d].
+    destruct x as [d i|i r|d|d].
+    3: { now rewrite waiting_snoc_fail. }
     3: { now rewrite waiting_snoc_cancel. }
     + rewrite waiting_snoc_req. destruct (i =? img); [apply in_or_app; now left|assumption].
     + rewrite waiting_snoc_done. destruct (N.eqb_spec i img) as [->|Hne]; [|assumption].
@@ -416,6 +427,32 @@ Theorem cancel_step steps c :
               waiting img (rev (steps ++ [Cancel c])) = waiting img (rev steps).
 Proof.
   rewrite run_snoc. cbn. rewrite app_nil_r. repeat split. apply waiting_snoc_cancel.
+Qed.
+
+(** * Override failure: a Pull whose registry-host override fails is answered at once with the error,
+      touches nothing and starts no pull; and every such call gets exactly one such answer. *)
+Theorem fail_step steps c :
+  log (run (steps ++ [Fail c])) = log (run steps) ++ [Rejected c] /\
+  next (run (steps ++ [Fail c])) = next (run steps) /\
+  pullnos (log (run (steps ++ [Fail c]))) = pullnos (log (run steps)) /\
+  forall img, inflight (run (steps ++ [Fail c])) img = inflight (run steps) img /\
+              count_started img (log (run (steps ++ [Fail c]))) = count_started img (log (run steps)).
+Proof.
+  rewrite run_snoc. cbn [do_step inflight next log step_events]. rewrite pullnos_app. cbn [pullnos flat_map].
+  rewrite app_nil_r. repeat split.
+  rewrite count_started_app. cbn. lia.
+Qed.
+
+Theorem fail_accounting steps c : count_rejected c (log (run steps)) = count_fail c steps.
+Proof.
+  induction steps as [|x p IH] using rev_ind; [reflexivity|].
+  rewrite run_snoc, log_step. unfold count_rejected, count_fail in *. rewrite !filter_app, !app_length, IH.
+  f_equal. destruct x as [d i|i r|d|d]; cbn.
+  - now destruct (inflight (run p) i).
+  - destruct (inflight (run p) i) as [e|]; [|reflexivity].
+    generalize 0 as k. induction (e_recv e) as [|a l IHl]; intros k; cbn; [reflexivity|apply IHl].
+  - now destruct (d =? c).
+  - reflexivity.
 Qed.
 
 (** * (c) private copies *)
